@@ -18,6 +18,7 @@ import (
 	"fmt"
 	"math"
 	"sort"
+	"sync"
 
 	"github.com/ElrondNetwork/elrond-go/config"
 	"github.com/ElrondNetwork/elrond-go/core"
@@ -101,18 +102,60 @@ func streakInputs(penalty float32, maxStreak int) []uint32 {
 	return s
 }
 
-func refChance(bands []band, r uint32) uint32 {
+func refChance(bands []band, r uint32) (uint32, bool) {
 	b := append([]band{}, bands...)
 	sort.Slice(b, func(i, j int) bool { return b[i].thr < b[j].thr })
 	for _, x := range b {
 		if r <= x.thr {
-			return x.chance
+			return x.chance, true
 		}
 	}
-	return b[0].chance // unreachable for r <= max == last threshold
+	return 0, false // no band: validation must have rejected such a table
 }
 
-type desc map[string]interface{}
+type desc = map[string]interface{}
+
+// collector keeps per signature the earliest witness in enumeration order, so the reported
+// witness is the simplest one and does not depend on goroutine interleaving.
+type found struct {
+	rank   [2]int64
+	detail map[string]interface{}
+	count  int64
+}
+
+type collector struct {
+	mu sync.Mutex
+	m  map[string]*found
+}
+
+var col = &collector{m: map[string]*found{}}
+
+func (k *collector) add(sig string, rank [2]int64, detail map[string]interface{}) {
+	k.mu.Lock()
+	defer k.mu.Unlock()
+	f := k.m[sig]
+	if f == nil {
+		k.m[sig] = &found{rank, detail, 1}
+		return
+	}
+	f.count++
+	if rank[0] < f.rank[0] || (rank[0] == f.rank[0] && rank[1] < f.rank[1]) {
+		f.rank, f.detail = rank, detail
+	}
+}
+
+func (k *collector) flush(c *mc.Ctx) {
+	sigs := []string{}
+	for s := range k.m {
+		sigs = append(sigs, s)
+	}
+	sort.Strings(sigs)
+	for _, s := range sigs {
+		f := k.m[s]
+		f.detail["violating_cases_in_this_run"] = f.count
+		c.Violation(s, f.detail, nil)
+	}
+}
 
 // rejectClass maps a validation error to its sentinel (for the evidence counters only).
 func rejectClass(err error) string {
@@ -128,7 +171,7 @@ func rejectClass(err error) string {
 
 // checkRater evaluates the whole input alphabet on one accepted configuration.
 func checkRater(c *mc.Ctx, bsr *rating.BlockSigningRater, min, max uint32, bands []band,
-	shardStep, metaStep process.RatingsStepHandler, maxStreak int, cfg desc, key string) {
+	shardStep, metaStep process.RatingsStepHandler, maxStreak int, cfg desc, key string, ord int64) {
 	ratings := ratingInputs(min, max, bands)
 	var n int64
 	outs := map[string]struct{}{}
@@ -146,7 +189,7 @@ func checkRater(c *mc.Ctx, bsr *rating.BlockSigningRater, min, max uint32, bands
 	}()
 	viol := func(sig string, d desc) {
 		d["config"] = cfg
-		c.Violation(sig, d, nil)
+		col.add(sig, [2]int64{ord, n}, d)
 	}
 	inRange := func(op string, shard, r, got uint32, extra desc) bool {
 		if got < min || got > max {
@@ -235,8 +278,10 @@ func checkRater(c *mc.Ctx, bsr *rating.BlockSigningRater, min, max uint32, bands
 	for _, r := range ratings {
 		got := bsr.GetChance(r)
 		n++
-		want := refChance(bands, r)
-		if got != want {
+		want, ok := refChance(bands, r)
+		if !ok {
+			viol("GetChance:accepted-config-has-no-band-for-a-rating-in-[min,max]", desc{"rating": r, "chance": got, "bands(thr,chance)": fmt.Sprint(bands)})
+		} else if got != want {
 			viol("GetChance:not-the-band-of-the-rating", desc{"rating": r, "chance": got, "want": want, "bands(thr,chance)": fmt.Sprint(bands)})
 		}
 		outcome(fmt.Sprint("chance", got))
@@ -321,7 +366,7 @@ func partA(c *mc.Ctx) {
 					bsr, err = rating.NewBlockSigningRater(rd)
 				}
 			}); p != "" {
-				c.Violation("validation:panic", desc{"config": cfg, "panic": p}, nil)
+				col.add("validation:panic", [2]int64{int64(gi)*int64(len(steps)) + int64(si), 0}, desc{"config": cfg, "panic": p})
 				continue
 			}
 			if err != nil {
@@ -334,7 +379,7 @@ func partA(c *mc.Ctx) {
 			if c.WantSample() && si%97 == 5 && gi%13 == 3 {
 				c.Sample(cfg)
 			}
-			checkRater(c, bsr, g.min, g.max, bands, rd.ShardChainRatingsStepHandler(), rd.MetaChainRatingsStepHandler(), maxStreak, cfg, fmt.Sprint("A", gi, "/", si))
+			checkRater(c, bsr, g.min, g.max, bands, rd.ShardChainRatingsStepHandler(), rd.MetaChainRatingsStepHandler(), maxStreak, cfg, fmt.Sprint("A", gi, "/", si), int64(gi)*int64(len(steps))+int64(si))
 		}
 	})
 }
@@ -388,7 +433,7 @@ func partB(c *mc.Ctx) {
 				continue
 			}
 			c.Count("partB_configs_accepted", 1)
-			checkRater(c, bsr, g.min, g.max, bands, sh, mt, maxStreak, cfg, fmt.Sprint("B", i, "/", gi))
+			checkRater(c, bsr, g.min, g.max, bands, sh, mt, maxStreak, cfg, fmt.Sprint("B", i, "/", gi), 1<<40+int64(i)*int64(len(gens))+int64(gi))
 		}
 	})
 }
@@ -407,5 +452,6 @@ func main() {
 		}
 		partA(c)
 		partB(c)
+		col.flush(c)
 	})
 }
